@@ -175,8 +175,10 @@ def _t3(ctx):
     # the per-Einsum entry seeds the result (so that it wins)
     seeds = [s for s in fi.stmts() if isinstance(s, ast.Assign) and any(isinstance(t, ast.Name) and t.id == "rename" for t in s.targets)]
     ctx.require(seeds, R, f"{fi.fq}: result variable `rename` not found")
-    seeded = any(call_name(s.value) in ("deepcopy", "copy", "model_copy") and not isinstance(s.value.args[0] if s.value.args else None, ast.Constant)
-                 for s in seeds if isinstance(s.value, ast.Call))
+    def _vals(e):
+        return [e.body, e.orelse] if isinstance(e, ast.IfExp) else [e]
+    seeded = any(isinstance(v_, ast.Call) and call_name(v_) in ("deepcopy", "copy", "model_copy") and not isinstance(v_.args[0] if v_.args else None, ast.Constant)
+                 for s in seeds for v_ in _vals(s.value))
     ctx.check(seeded, R, fi, seeds[-1], "the result is never seeded from the matching per-Einsum entry", "result seeded from a copy of the matching per-Einsum entry")
 
     fe = ctx.func(WL, "Einsum._eval_expressions", R)
